@@ -1,7 +1,7 @@
 from . import conv
 LEAN = "PystogVerif.Props.C03"
 ENTRIES = ["Converter._safe_divide"] + [f"Converter.{a}_to_{b}" for a in conv.RK for b in conv.RK if a != b]
-gen = conv.gen_space("R")
+gen = conv.gen_space("R", negative_bcoh=True)
 evaluate = conv.evaluate_values
 RULE = ("random reciprocal-space function kind X, grid (uniform/jittered/irregular/centi-lattice, with Q=0 or the smallest "
         "subnormal in 15-22% of cases), data family and material constants; every ordered pair/triple of kinds is evaluated "
